@@ -22,9 +22,9 @@ EXC = "⟂EXCEPTION"
 def alphabet(p):
     """statement's verdict alphabet ∪ every string constant the loop compares an
     action_type with ∪ OTHER (a string equal to none of them)"""
-    loop = p.cls("CoherentFeedForwardLoop", LOOPS)
     found = set()
-    for m in loop.methods.values():
+    # package-wide: the loop may judge a verdict through a helper of the protein class (is_success(), is_blocked(), …)
+    for m in p.all_funcs:
         for n in ast.walk(m.node):
             if isinstance(n, ast.Compare) and "action_type" in src(n):
                 for x in ast.walk(n):
